@@ -8,9 +8,11 @@ def run(ctx):
     kf = codec.kfs('C06'); defs = kf_defines(kf)
     codec.world(ctx)
     nd = 3 if ctx.tier == 'quick' else 4
+    # the message buffer has 96 bytes: above CBMC's default field-sensitivity limit (64 elements) its bytes are not constant-propagated, and the real
+    # fixed-width extractor, which reads the buffer, then forks on every byte (no result in 15 min); with the limit raised the layout is concrete
     for place, nm in ((0, 'header_90_91'), (1, 'body_95_96'), (2, 'trailer_93_89')):
         ctx.add(Harness('C06_data_%s' % nm, VERIF + '/harness/C06_data.c', defines=defs + codec.WORLD_DEFS + ['PLACE=%d' % place, 'NDATA=%d' % nd, 'VF_MAXCOPY=%d' % codec.FLD], unwind=14,
-                        unwindset=codec.us_decode(14), flags=['-I', VERIF + '/shims'], object_bits=14, timeout=1200, functions=FUN,
+                        unwindset=codec.us_decode(14), flags=['-I', VERIF + '/shims', '--max-field-sensitivity-array-size', '128'], object_bits=14, timeout=1200, functions=FUN,
                         stubs=codec.STUBS_DECODE + [codec.STUB_TOK + ' (never applied to the data token: asserted)', codec.STUB_NOGRP],
                         bounds='Logon message with the pair in the %s; data length n = 0..%d (each length one concrete-layout run), the n data bytes arbitrary (SOH, \'=\', NUL included); checksum verification off' % (nm.split('_')[0], nd),
                         desc='decoded data bytes == message bytes; following field decodes'))
